@@ -15,7 +15,7 @@ from common import BIN, VERIF, Work, build_harness, cfg_with, log, sh, tlc
 DEVIATIONS = [
     # module, base cfg, constants
     ("ClientPubSub", "MC_ClientPubSub.cfg", ["FixD7", "FixD8"]),
-    ("ServerReg", "MC_ServerReg.cfg", ["FixD10", "FixD18"]),
+    ("ServerReg", "MC_ServerReg.cfg", ["FixD10", "FixD18", "AtomicCreate"]),
     ("ServerReg", "MC_ServerReg_live.cfg", ["FixD15"]),
     ("KeepAlive", "MC_KeepAlive.cfg", ["FixD11", "FixD17"]),
     ("Requestor", "MC_Requestor.cfg", ["RouteByCid"]),
